@@ -115,7 +115,7 @@ PROPS = {
         "engines": [storm("matrix")],
         "rule": "even shards: matrix over twin groups - every listed instruction x every signer identity (authority, stranger, 7 group roles, fee admin, other group's admin, no signature) x every single substitution of a bound account (foreign group twin, sibling bank's vault/authority, clone owned by another program, wrong sysvar / token program, for pass-through banks the venue reserve / obligation / program and the reserve or price account that values the collateral in the risk accounts), plus coherent substitutions (a foreign group's bank presented with all of its own vaults and oracle accounts); a cell counts only when its positive control succeeded; odd shards: attribution monitor over the administrative storm (every change of an account's balances / every role-signed instruction must be attributable to an entitled signer); distinct = (cell kind, instruction, identity or substitution, outcome)",
         "assumptions": COMMON_ASSUMPTIONS + ["the table of entitled signers and bound slots is written from the statement and the instruction doc comments (DESIGN App. A)"],
-        "floors": {"quick": {"C08.matrix_controls_ok": 300, "C08.matrix_signer_cells": 3000, "C08.matrix_substitution_cells": 1000}},
+        "floors": {"quick": {"C08.matrix_controls_ok": 300, "C08.matrix_signer_cells": 3000, "C08.matrix_substitution_cells": 1000, "admin.role_rotations": 20, "fidelity.group_configure_requests_compared": 100}},
         "exhaustive_note": "exhaustive over the listed cases x identities x substitutions per world",
     },
     "C12": {
